@@ -611,6 +611,12 @@ func mapOrderedCollectionPageProperties(mm map[string][]byte, c OrderedCollectio
 		}
 		hasData = true
 	}
+	if c.StartIndex > 0 {
+		if mm["startIndex"], err = gobEncodeUint(c.StartIndex); err != nil {
+			return hasData, err
+		}
+		hasData = true
+	}
 	return
 }
 
